@@ -27,6 +27,7 @@ import (
 	"github.com/tink-crypto/tink-go/v2/mac"
 	tinkpb "github.com/tink-crypto/tink-go/v2/proto/tink_go_proto"
 	"github.com/tink-crypto/tink-go/v2/secretdata"
+	"github.com/tink-crypto/tink-go/v2/verifbridge/vb"
 	"verif/dump"
 	"verif/h"
 	"verif/ref"
@@ -150,6 +151,11 @@ func setup() {
 	}
 	for _, d := range domain {
 		normalOps = append(normalOps, op{kind: opAddKey, name: fmt.Sprintf("AddKey(key requiring id %#x)", d), tmpl: 1, id: d, deep: d == 3 || d == 2})
+	}
+	// internal entry point used by tink's own factories (key derivation, hybrid/subtle): a key WITHOUT id requirement
+	// placed under a caller-chosen id; the id must be as reserved as any other
+	for _, d := range domain {
+		normalOps = append(normalOps, op{kind: opAddKey, name: fmt.Sprintf("AddKeyWithOpts(raw key, WithFixedID(%#x))", d), tmpl: 2, id: d, deep: d != 1})
 	}
 	ids := append(append([]uint32{}, domain...), unknownID, freshBase)
 	for _, k := range []opKind{opSetPrimary, opEnable, opDisable, opDelete} {
@@ -505,6 +511,21 @@ func (s *sys) apply(o op, step int, judge bool, budget int) bool {
 			if gotErr == nil && gotID != o.id && judge {
 				s.viol("id-requirement", "%s: key requiring id %#x was added under id %#x", o.name, o.id, gotID)
 			}
+		case 2:
+			if mo.find(o.id) >= 0 {
+				expect = mustFail // would create a duplicate id
+			} else {
+				expect = either // whether a fixed id is accepted is the implementation's policy
+				if mo.adds >= budget {
+					return false
+				}
+				mo.adds++
+			}
+			effect = func() {
+				mo.unavail[gotID] = true
+				mo.entries = append(mo.entries, mEntry{label: newLabel, id: gotID, status: stEnabled, idReq: false, key: rawKey})
+			}
+			gotID, gotErr = s.km.AddKeyWithOpts(rawKey, vb.Tok(), keyset.WithFixedID(o.id))
 		}
 	case opSetPrimary:
 		i := mo.find(o.id)
